@@ -49,6 +49,8 @@ REQUIRED_THEOREMS = [
     # round 5: DataContainer.append, _prepare_faces/_prepare_cells, RawMeshData.__init__, _prepare_edges translated and bridged
     "data_append_source", "prepare_faces_bridge", "prepare_cells_bridge", "prepare_faces_source_no_numpy", "init_rewrap_bridge",
     "prepare_edges_refines", "file_route_source", "file_route_never_fails",
+    # round 6: from_arrays, load, the dimensionality property, the one-line container accessors and id_* properties
+    "accessors_source", "from_arrays_bridge", "from_arrays_vertices_3d", "load_bridge", "load_file_route", "dimensionality_cache_source",
 ]
 TRUSTED = [
     "Lean 4.33.0 kernel; axioms ⊆ {propext, Classical.choice, Quot.sound}",
@@ -69,6 +71,9 @@ TRUSTED = [
     "(faces_C of _generate_cell_faces) is totalised, the bridge carries the tetrahedron/hexahedron hypothesis; attribute handles "
     "(get_attribute / create_attribute results kept in dicts) are read as (container, name), the _prepare_edges bridge carries the "
     "hypothesis that attribute names are unique (they are dict keys)",
+    "translator, round 6: from_arrays (numpy arrays = lists of rows with their column counts w / ew as parameters, np.pad, np.any(.. >= n), "
+    "`+=` = concatenation, `raise` = Except.error), load (read_by_extension's result is a parameter), the dimensionality property "
+    "(its cache is a parameter) and the one-line accessors (__len__, empty, has_attribute, attributes, id_*) emitted as abbreviations",
     "row-typed model prepareR (Lemmas/C02Rows.lean) tied to the code by the K section of the correspondence: type(row) of every "
     "stored edge/face/cell row for list, tuple and numpy input rows",
     "Python set/dict of key tuples abstracted to lists with membership; numpy int rows abstracted to integer lists "
@@ -1172,13 +1177,13 @@ _MD, _MM, _BS, _DC = "mouette/mesh/mesh_data.py", "mouette/mesh/mesh.py", "mouet
 SOURCE_MAP = {
     # ---- mesh_data.py
     f"{_MD}::RawMeshData.__init__": "translated",                    # C02B.initFromMesh, initFresh / init_rewrap_bridge
-    f"{_MD}::RawMeshData.id_vertices": "modelled",                   # shape-checked by the translator: `return range(len(self.x))`
-    f"{_MD}::RawMeshData.id_edges": "modelled",
-    f"{_MD}::RawMeshData.id_faces": "modelled",
-    f"{_MD}::RawMeshData.id_cells": "modelled",
+    f"{_MD}::RawMeshData.id_vertices": "translated",                 # C02B.id* / accessors_source; every `for x in self.id_*` of the bodies goes through it
+    f"{_MD}::RawMeshData.id_edges": "translated",                 # C02B.id* / accessors_source; every `for x in self.id_*` of the bodies goes through it
+    f"{_MD}::RawMeshData.id_faces": "translated",                 # C02B.id* / accessors_source; every `for x in self.id_*` of the bodies goes through it
+    f"{_MD}::RawMeshData.id_cells": "translated",                 # C02B.id* / accessors_source; every `for x in self.id_*` of the bodies goes through it
     f"{_MD}::RawMeshData.id_facecorners": "out-of-scope: not used by the construction code",
     f"{_MD}::RawMeshData.id_cellcorners": "out-of-scope: not used by the construction code",
-    f"{_MD}::RawMeshData.dimensionality": "modelled",
+    f"{_MD}::RawMeshData.dimensionality": "translated",              # C02B.dimensionalityProp / dimensionality_cache_source
     f"{_MD}::RawMeshData._compute_dimensionality": "translated",     # C02S.dimChain / dimensionality_bridge
     f"{_MD}::RawMeshData.prepare": "translated",                     # C02S.prepareProgram / prepare_follows_source_structure
     f"{_MD}::RawMeshData._prepare_vertices": "translated",           # C02B.prepareVertices / prepare_vertices_bridge
@@ -1193,9 +1198,9 @@ SOURCE_MAP = {
     f"{_MD}::RawMeshData._complete_faces_from_cells": "translated",  # C02B.completeFaces / complete_faces_bridge
     # ---- mesh.py
     f"{_MM}::_instanciate_raw_mesh_data": "translated",              # C02S.instProgram / instantiate_follows_source_structure
-    f"{_MM}::load": "oracle-only",                                   # the file route: harness writes .obj/.mesh, reads it back (readers are C04's)
+    f"{_MM}::load": "translated",                                    # C02B.load / load_bridge, load_file_route (read_by_extension is C04's)
     f"{_MM}::save": "oracle-only",                                   # save -> load histories
-    f"{_MM}::from_arrays": "modelled",                               # Prepare.fromArrays
+    f"{_MM}::from_arrays": "translated",                             # C02B.fromArrays / from_arrays_bridge
     f"{_MM}::copy": "out-of-scope: copies a finished mesh, no construction from raw data (C12/C13)",
     f"{_MM}::merge": "out-of-scope: merges finished meshes (C16)",
     f"{_MM}::reorder_vertices": "out-of-scope: renumbering of a finished mesh",
@@ -1205,11 +1210,11 @@ SOURCE_MAP = {
     f"{_DC}::_BaseDataContainer.__init__": "modelled",
     f"{_DC}::_BaseDataContainer.empty": "out-of-scope: abstract",
     f"{_DC}::_BaseDataContainer.clear": "out-of-scope: abstract",
-    f"{_DC}::_BaseDataContainer.attributes": "modelled",
+    f"{_DC}::_BaseDataContainer.attributes": "translated",       # C02B.dcAttributes / accessors_source (iterated by _prepare_edges)
     f"{_DC}::_BaseDataContainer.create_attribute": "modelled",       # PrepSrc.createFlagAttr / Attr records
     f"{_DC}::_BaseDataContainer.register_array_as_attribute": "out-of-scope: attribute API (C05); the harness creates dense attributes through create_attribute",
     f"{_DC}::_BaseDataContainer.delete_attribute": "out-of-scope: attribute API (C05)",
-    f"{_DC}::_BaseDataContainer.has_attribute": "modelled",          # Prepare.hasAttr
+    f"{_DC}::_BaseDataContainer.has_attribute": "translated",   # C02B.dcHasAttr / accessors_source (called by the translated bodies)
     f"{_DC}::_BaseDataContainer.get_attribute": "modelled",
     f"{_DC}::_BaseDataContainer.append": "out-of-scope: abstract",
     f"{_DC}::DataContainer.__init__": "modelled",
@@ -1218,12 +1223,12 @@ SOURCE_MAP = {
     f"{_DC}::DataContainer.__iter__": "modelled",
     f"{_DC}::DataContainer.__repr__": "out-of-scope: printing",
     f"{_DC}::DataContainer.__str__": "out-of-scope: printing",
-    f"{_DC}::DataContainer.__len__": "modelled",
+    f"{_DC}::DataContainer.__len__": "translated",   # C02B.dcLen / accessors_source (called by the translated bodies)
     f"{_DC}::DataContainer.size": "out-of-scope: alias of __len__, not used by the construction code",
-    f"{_DC}::DataContainer.empty": "modelled",
+    f"{_DC}::DataContainer.empty": "translated",   # C02B.dcEmpty / accessors_source (called by the translated bodies)
     f"{_DC}::DataContainer.clear": "out-of-scope: not used by the construction code",
     f"{_DC}::DataContainer.append": "translated",                    # C02B.dataAppend / data_append_source (used by every X.append(..) of the bodies)
-    f"{_DC}::DataContainer.__iadd__": "oracle-only",                 # how the harness fills raw containers
+    f"{_DC}::DataContainer.__iadd__": "modelled",                    # `m.x += list(X)` of from_arrays: concatenation (and how the harness fills raw containers)
     f"{_DC}::CornerDataContainer.__init__": "modelled",
     f"{_DC}::CornerDataContainer.__getitem__": "oracle-only",        # later-query battery
     f"{_DC}::CornerDataContainer.element": "oracle-only",
@@ -1232,7 +1237,7 @@ SOURCE_MAP = {
     f"{_DC}::CornerDataContainer.__repr__": "out-of-scope: printing",
     f"{_DC}::CornerDataContainer.__str__": "out-of-scope: printing",
     f"{_DC}::CornerDataContainer.size": "out-of-scope: alias of __len__",
-    f"{_DC}::CornerDataContainer.__len__": "modelled",               # shape-checked by the translator: `return len(self._elem)`
+    f"{_DC}::CornerDataContainer.__len__": "translated",   # C02B.cornerLen / accessors_source (called by the translated bodies)
     f"{_DC}::CornerDataContainer.empty": "oracle-only",
     f"{_DC}::CornerDataContainer.clear": "out-of-scope: not used by the construction code",
     f"{_DC}::CornerDataContainer.append": "translated",              # C02B.cornerAppend / corner_append_source
@@ -1257,7 +1262,8 @@ MANIFEST = {
                    "invariants, so that the model's prepare is proved to be the translated step program run on the translated bodies "
                    "(prepare_runs_translated_bodies; round 5: _prepare_edges - validity filter, rebuild with attribute re-indexing - "
                    "DataContainer.append, the numpy-row -> list conversions and RawMeshData.__init__/re-wrap are translated and bridged too; "
-                   "file_route_source composes the construction with whatever record a file reader returns). prepare commutes with forgetting "
+                   "file_route_source composes the construction with whatever record a file reader returns; round 6: from_arrays, load, the "
+                   "dimensionality property and the container accessors / id_* properties are translated and bridged). prepare commutes with forgetting "
                    "the container type (list/tuple/numpy) of index rows and leaves no numpy row. The model is tied to the code by an exact container correspondence per "
                    "container type and a direct oracle including a later-query battery on numpy-built meshes."),
     "level_note": ("Trusted: Lean kernel + propext/Classical.choice/Quot.sound; the hand-written model (checked against the code on the "
